@@ -133,7 +133,25 @@ Section WithTables.
 
   Inductive check_result := Accepted (m : machine) | Rejected (m : machine).
 
+  (* PandoraMachine.check_conf (first round): a check starts from a clean
+     request, `self.right_disp_map = None` (with pipeline_cfg and margins, which
+     this model does not carry: Model/History.v and Model/Margins.v do), so
+     nothing of a pipeline checked or run before on the same object leaks into
+     this one.  The second round (images exchanged) runs iff a validation step
+     of THIS pipeline set right_disp_map during the first round. *)
   Definition check_conf (m : machine) (p : list step) : check_result :=
+    let '(m1, ok) := check_round (set_rdm m false) false p in
+    if negb ok then Rejected m1
+    else if m_rdm m1 then
+      let '(m2, ok2) := check_round m1 true p in
+      if ok2 then Accepted m2 else Rejected m2
+    else Accepted m1.
+
+  (* The same function as it was BEFORE the repair (fix: "a configuration check
+     starts from a clean machine"): the right-disparity request of an earlier
+     pipeline was kept.  Only used by the refuted-before-fix witness of
+     Props/C01.v. *)
+  Definition check_conf_before (m : machine) (p : list step) : check_result :=
     let '(m1, ok) := check_round m false p in
     if negb ok then Rejected m1
     else if m_rdm m1 then
@@ -192,12 +210,20 @@ Section WithTables.
 
   (* pandora.run(machine, left, right, cfg) with num_scales = n (n >= 1;
      n = 1 when there is no multiscale step) *)
-  Definition run (m : machine) (p : list step) (n : nat) : run_result :=
-    let m0 := mkM (m_st m) (m_regs m ++ run_tbl)
-                  (m_rdm m || has_kind Val p)
-                  (Z.of_nat n - 1) in
+  Definition run_from (m0 : machine) (p : list step) (n : nat) : run_result :=
     let '(m1, tr, ok) := scale_loop n m0 p [] in
     if ok then RunOk (set_st (set_regs m1 (remove_table run_tbl (m_regs m1))) Begin) tr
     else RunError m1 tr.
+
+  (* run_prepare: right_disp_map is the request of THIS pipeline (the
+     validation_method of its first validation step, None when it has none) *)
+  Definition run (m : machine) (p : list step) (n : nat) : run_result :=
+    run_from (mkM (m_st m) (m_regs m ++ run_tbl) (has_kind Val p) (Z.of_nat n - 1)) p n.
+
+  (* run_prepare BEFORE the repair: right_disp_map was only ever set, never
+     reset (`if validation_steps: self.right_disp_map = ...` without else).
+     Only used by the refuted-before-fix witness of Props/C01.v. *)
+  Definition run_before (m : machine) (p : list step) (n : nat) : run_result :=
+    run_from (mkM (m_st m) (m_regs m ++ run_tbl) (m_rdm m || has_kind Val p) (Z.of_nat n - 1)) p n.
 
 End WithTables.
